@@ -565,7 +565,7 @@ Definition frame (s : state) :=
    (gosub_stack s, for_stack s, while_stack s),
    (on_error s, err_handle s, err_resume s, err_num s, err_pos s),
    (stop_pos s, data_pos s, run_mode s, tron s), seed s,
-   (ev_enabled s, ev_gosub s, ev_stopped s, ev_suspend s), files s, stick_on s, def_seg s).
+   (ev_enabled s, ev_gosub s, ev_stopped s, ev_suspend s), files s, stick_on s, def_seg s, math_raise s).
 Definition scalar_part (s : state) := (sc_vars s, sc_mem s, sc_current s).
 Definition array_part (s : state) := (ar_dims s, ar_bufs s, ar_mem s, ar_current s, ar_base s, ar_base_by_dim s).
 
@@ -884,7 +884,7 @@ Proof.
     destruct (alookup n (sv_arrays sv)); split; reflexivity.
   - (* the restored pointers lie in the rebuilt string space, above the variables *)
     assert (frame s6 = frame s5) as Fr by congruence.
-    unfold frame in Fr. injection Fr as _ _ Fc Fp _ Fs _ Ff _ _ _ _ _ _ _ _ _ _ _ _ _ _ _ _ _ _ _ _ _ _.
+    unfold frame in Fr. injection Fr as _ _ Fc Fp _ Fs _ Ff _ _ _ _ _ _ _ _ _ _ _ _ _ _ _ _ _ _ _ _ _ _ _.
     assert (0 <= sz) as Hsz0.
     { unfold sizes_of in Hsz.
       destruct (sum_scalar_sizes (sv_scalars sv)) as [z1| | |] eqn:E1; try discriminate. cbn [bind] in Hsz.
@@ -1006,7 +1006,7 @@ Qed.
 Theorem chain_rest a s s' : cmd_chain a s = Done s' ->
   (gosub_stack s', for_stack s', while_stack s') = ([], [], [])
   /\ (on_error s', err_handle s', err_resume s', err_num s', err_pos s') = (None, false, false, 0, 0)
-  /\ (stop_pos s', data_pos s', seed s') = (None, 0, 5228370)
+  /\ (stop_pos s', data_pos s', seed s', math_raise s') = (None, 0, 5228370, false)
   /\ (ev_enabled s', ev_gosub s', ev_stopped s', ev_suspend s') = ([], [], [], false)
   /\ deftype s' = (if c_merge a then deftype s else repeat 33 26)
   /\ functions s' = (if c_all a then functions s else [])
@@ -1024,9 +1024,9 @@ Proof.
   destruct (restore_arrays_spec _ _ _ _ Hr eq_refl) as [Fr2 _].
   assert (frame s6 = frame _) as Fr by (etransitivity; [exact Fr2 | exact Fr1]).
   unfold frame in Fr.
-  injection Fr as F1 F2 F3 F4 _ _ _ _ F9 F10 F11 F12 F13 F14 F15 F16 F17 F18 F19 F20 F21 F22 F23 F24 F25 F26 F27 F28 _ F30.
+  injection Fr as F1 F2 F3 F4 _ _ _ _ F9 F10 F11 F12 F13 F14 F15 F16 F17 F18 F19 F20 F21 F22 F23 F24 F25 F26 F27 F28 _ F30 F31.
   unfold gc_on. cbn -[repeat].
-  rewrite ?F1, ?F2, ?F3, ?F4, ?F9, ?F10, ?F11, ?F12, ?F13, ?F14, ?F15, ?F16, ?F17, ?F18, ?F19, ?F20, ?F21, ?F22, ?F23, ?F24, ?F25, ?F26, ?F27, ?F28, ?F30.
+  rewrite ?F1, ?F2, ?F3, ?F4, ?F9, ?F10, ?F11, ?F12, ?F13, ?F14, ?F15, ?F16, ?F17, ?F18, ?F19, ?F20, ?F21, ?F22, ?F23, ?F24, ?F25, ?F26, ?F27, ?F28, ?F30, ?F31.
   repeat split; destruct (c_merge a), (c_all a); reflexivity.
 Qed.
 
@@ -1074,11 +1074,11 @@ Proof.
            destruct (restore_arrays_spec _ _ _ _ Er eq_refl) as [Fr2 _].
            assert (frame s6 = frame _) as Fr by (etransitivity; [exact Fr2 | exact Fr1]).
            unfold frame in Fr.
-           injection Fr as _ _ _ F4 _ _ _ _ _ _ F11 F12 F13 F14 _ _ _ _ _ F20 F21 _ F23 _ _ _ _ _ _ _.
+           injection Fr as _ _ _ F4 _ _ _ _ _ _ F11 F12 F13 F14 _ _ _ _ _ F20 F21 _ F23 _ _ _ _ _ _ _ _.
            unfold gc_on. cbn. rewrite ?F4, ?F11, ?F12, ?F13, ?F14, ?F20, ?F21, ?F23. repeat split.
         -- injection Er as -> ->.
            destruct (restore_scalars_spec _ _ _ _ Ers eq_refl) as [Fr _]. unfold frame in Fr.
-           injection Fr as _ _ _ F4 _ _ _ _ _ _ F11 F12 F13 F14 _ _ _ _ _ F20 F21 _ F23 _ _ _ _ _ _ _.
+           injection Fr as _ _ _ F4 _ _ _ _ _ _ F11 F12 F13 F14 _ _ _ _ _ F20 F21 _ F23 _ _ _ _ _ _ _ _.
            unfold gc_on. cbn. rewrite ?F4, ?F11, ?F12, ?F13, ?F14, ?F20, ?F21, ?F23. repeat split.
     + injection H as _ <-. right. repeat split.
   - injection H as _ <-. left. reflexivity.
